@@ -352,3 +352,13 @@ func markPreemptedWait(run *Run, res *Result, rules ...string) {
 		}
 	}
 }
+
+// sortedKeys returns the int keys of a map in ascending order (checkers must not depend on map order).
+func sortedKeys[V any](m map[int]V) []int {
+	ks := make([]int, 0, len(m))
+	for k := range m {
+		ks = append(ks, k)
+	}
+	sort.Ints(ks)
+	return ks
+}
